@@ -28,7 +28,7 @@ for mid in sorted(os.listdir(os.path.join(ROOT, "seeded"))):
     m = json.load(open(mp))
     checks = m.get("checks") or []
     if not checks:
-        out.append("| %s | %s | %s | %s | - | **not caught (by design)** | see "needs" |" % (
+        out.append("| %s | %s | %s | %s | - | **not caught (by design)** | see needs |" % (
             mid, m["property"], m["change"], m["needs_to_manifest"]))
     for c in checks:
         r = rows.get((mid, c))
